@@ -198,7 +198,8 @@ pub fn pair_set<const NA: usize, const NB: usize>(t: &Value, line: usize, rep: &
         "eq" => {
             let obs = json!({
                 "ab": call(&mut ctx, || a == b), "ba": call(&mut ctx, || b == a),
-                "aa": call(&mut ctx, || a == a), "bb": call(&mut ctx, || b == b)});
+                "aa": call(&mut ctx, || a == a), "bb": call(&mut ctx, || b == b),
+                "nab": call(&mut ctx, || a != b), "nba": call(&mut ctx, || b != a)});
             if &obs != exp {
                 fails.push(Fail { props: "C14".into(), msg: format!("equality: observed {obs}, the model says {exp}") });
             }
@@ -311,7 +312,8 @@ pub fn pair_map<const NA: usize, const NB: usize>(t: &Value, line: usize, rep: &
         "eq" => {
             let obs = json!({
                 "ab": call(&mut ctx, || a == b), "ba": call(&mut ctx, || b == a),
-                "aa": call(&mut ctx, || a == a), "bb": call(&mut ctx, || b == b)});
+                "aa": call(&mut ctx, || a == a), "bb": call(&mut ctx, || b == b),
+                "nab": call(&mut ctx, || a != b), "nba": call(&mut ctx, || b != a)});
             if &obs != exp {
                 fails.push(Fail { props: "C14".into(), msg: format!("equality: observed {obs}, the model says {exp}") });
             }
